@@ -40,7 +40,68 @@ type Sched struct {
 	Live   atomic.Int64 // goroutines that have parked at least once and not yet exited
 	Points atomic.Int64
 	exempt int64 // goroutine id of the controller: its own sync operations are never scheduled
+	// focus: if non-empty, only sync operations performed by functions whose qualified name
+	// starts with one of these prefixes are scheduling decisions; all other operations proceed
+	// without parking as long as they are enabled (they still park when they would block).
+	focus      []string
+	focusCache map[uintptr]bool
 }
+
+// SetFocus restricts scheduling decisions to call sites in the given packages.
+//
+//go:norace
+func (s *Sched) SetFocus(prefixes []string) {
+	s.focus = prefixes
+	s.focusCache = map[uintptr]bool{}
+}
+
+//go:norace
+func (s *Sched) inFocus() bool {
+	if len(s.focus) == 0 {
+		return true
+	}
+	var pcs [12]uintptr
+	n := runtime.Callers(3, pcs[:])
+	if n == 0 {
+		return true
+	}
+	// the first frame outside the verification runtime is the repository call site
+	for i := 0; i < n; i++ {
+		pc := pcs[i]
+		if v, ok := s.focusCache[pc]; ok {
+			if v {
+				return true
+			}
+			// cached "not focus" is only meaningful for a call-site frame; runtime frames are cached as skip
+			if _, skip := s.focusCache[^pc]; !skip {
+				return false
+			}
+			continue
+		}
+		fn := runtime.FuncForPC(pc - 1)
+		name := ""
+		if fn != nil {
+			name = fn.Name()
+		}
+		if hasPrefix(name, "lunar/toolkit-core/verifrt") {
+			s.focusCache[pc] = false
+			s.focusCache[^pc] = true // marker: skip this frame
+			continue
+		}
+		v := false
+		for _, p := range s.focus {
+			if hasPrefix(name, p) {
+				v = true
+			}
+		}
+		s.focusCache[pc] = v
+		return v
+	}
+	return true
+}
+
+//go:norace
+func hasPrefix(s, p string) bool { return len(s) >= len(p) && s[:len(p)] == p }
 
 var cur atomic.Pointer[Sched]
 
@@ -100,6 +161,9 @@ func PointL(op string, obj uintptr, label string, enabled func() bool) {
 	}
 	if s.kill.Load() {
 		exitNow(s)
+	}
+	if len(s.focus) > 0 && op != OpStart && op != OpHarness && (enabled == nil || enabled()) && !s.inFocus() {
+		return // not a scheduling decision: proceed (the operation cannot block right now)
 	}
 	r := &ParkReq{GID: gid, Op: op, Obj: obj, Label: label, Enabled: enabled, wake: make(chan struct{})}
 	s.Points.Add(1)
